@@ -29,6 +29,7 @@ struct Hist {
     bool analogIncomplete;   // loaded from a file whose ANALOG group lacks mandatory parameters (see run())
     bool columnOverGaps, columnOverGapsReported;   // a column was added while empty gap frames existed (recorded finding, see checkC05)
     bool pendingUnspecified, hadUnspecified, fileOffSpec;   // an undocumented call was accepted (see afterMutator)
+    bool beyondInt16;        // an int parameter holds a value outside 16 bits (through set(size_t)): saving must refuse it (C17), C01/C03 not judged
     bool caseVariantNames;   // two parameters of one group differ by case only: not representable in a file (C01 not judged)
     bool offSpec;            // an undocumented (unspecified) call was accepted: shape agreement is no longer judged
     bool namedChannels;      // this history's caller names its channels (README leaves them unnamed)
